@@ -34,6 +34,7 @@ type ParamCase struct {
 	Success int    `json:"success"`
 	Failure int    `json:"failure"`
 	Port    string `json:"port"`
+	NumPort int    `json:"num_port,omitempty"` // the numeric field is a YAML field of its own
 	Host    string `json:"host"`
 	Via     string `json:"via"` // direct | loader
 }
@@ -67,7 +68,7 @@ func checkParams(c ParamCase) pbt.Verdict {
 		if c.Kind == "exec" {
 			p.Exec = &health.ExecProbe{Command: "true"}
 		} else {
-			p.HttpGet = &health.HttpProbe{Host: c.Host, Port: c.Port, Path: "/"}
+			p.HttpGet = &health.HttpProbe{Host: c.Host, Port: c.Port, NumPort: c.NumPort, Path: "/"}
 		}
 		return p
 	}
@@ -88,8 +89,11 @@ func checkParams(c ParamCase) pbt.Verdict {
 			if n, err := strconv.Atoi(c.Port); err == nil && n >= 1 && n <= 65535 {
 				want = n
 			}
-			if p.HttpGet.NumPort != want {
-				v.Violations = append(v.Violations, fmt.Sprintf("port %q gives effective port %d, want %d", c.Port, p.HttpGet.NumPort, want))
+			// with an empty textual port a legal configured num_port may be kept or dropped (the statement
+			// only demands legality, checked above)
+			keptNum := c.Port == "" && c.NumPort >= 1 && c.NumPort <= 65535 && p.HttpGet.NumPort == c.NumPort
+			if p.HttpGet.NumPort != want && !keptNum {
+				v.Violations = append(v.Violations, fmt.Sprintf("port %q (num_port %d) gives effective port %d, want %d", c.Port, c.NumPort, p.HttpGet.NumPort, want))
 				return v
 			}
 		}
@@ -122,6 +126,9 @@ func checkParams(c ParamCase) pbt.Verdict {
 			y.WriteString("      exec:\n        command: 'true'\n")
 		} else {
 			fmt.Fprintf(&y, "      http_get:\n        host: '%s'\n        path: '/'\n        port: '%s'\n", c.Host, c.Port)
+			if c.NumPort != 0 {
+				fmt.Fprintf(&y, "        num_port: %d\n", c.NumPort)
+			}
 		}
 	}
 	d, _ := os.MkdirTemp("", "verif-probe-")
@@ -161,7 +168,8 @@ func genInt(t *rapid.T) int {
 func genParams(t *rapid.T) ParamCase {
 	return ParamCase{Kind: pbt.Pick(t, []string{"exec", "http"}), Delay: genInt(t), Period: genInt(t), Timeout: genInt(t), Success: genInt(t), Failure: genInt(t),
 		Port: pbt.Pick(t, []string{"", "0", "1", "80", "65535", "65536", "-1", "99999999999999999999", "http", " 80", "8o", "+80", "0x50"}),
-		Host: pbt.Pick(t, []string{"", "localhost", " "}), Via: pbt.Pick(t, []string{"direct", "direct", "loader"})}
+		Host: pbt.Pick(t, []string{"", "localhost", " "}), Via: pbt.Pick(t, []string{"direct", "direct", "loader"}),
+		NumPort: pbt.Pick(t, []int{0, 0, 0, 8080, 65535, 65536, 70000, -1, -80})}
 }
 
 func TestC10Params(t *testing.T) {
